@@ -48,19 +48,19 @@ impl Prop for Since {
         if c.oa != c.ob {
             cx.label("different_offsets");
         }
-        let route = ((c.a.ns ^ c.b.ns ^ c.a.day) % 20) as u8;
-        if route != 0 && route < 10 {
+        let route = ((c.a.ns ^ c.b.ns ^ c.a.day) % 24) as u8;
+        if route != 0 && route < 12 {
             cx.label("operand_built_through_an_operator_route");
         }
         let r = catch(|| {
-            let a = if route < 10 { mk_dt_route(ia, route).set_offset(Offset::Fixed(c.oa)) } else {
+            let a = if route < 12 { mk_dt_route(ia, route).set_offset(Offset::Fixed(c.oa)) } else {
                 let (v, local) = mk_dt_off_pin(ia, c.oa);
                 if local {
                     cx.nt("operand_carries_Offset::Local");
                 }
                 v
             };
-            let b = if route < 10 { mk_dt_route(ib, route / 2).set_offset(Offset::Fixed(c.ob)) } else { mk_dt_off(ib, c.ob) };
+            let b = if route < 12 { mk_dt_route(ib, (route + 7) % 12).set_offset(Offset::Fixed(c.ob)) } else { mk_dt_off(ib, c.ob) };
             let ab: [i128; 7] = [
                 a.days_since(&b) as i128,
                 a.hours_since(&b) as i128,
